@@ -14,7 +14,8 @@ from .core import TranslatorError
 OUTPUT = "CookiesGen.v"
 ITEMS = ["_MIN_SCHEDULED_COOKIE_EXPIRATION", "MAX_TIME", "max_age_deadline formula", "heap_cleanup_due formula",
          "heap pop comparison", "clear() expiry comparison", "expires truthiness test",
-         "invalid Max-Age falls through to Expires", "cookie-path prefix test", "secure schemes",
+         "invalid Max-Age falls through to Expires", "cookie-path prefix test",
+         "_COOKIE_PATTERN takes every Expires date (3 syntaxes x 14 weekday names) as one value", "secure schemes",
          "domain/path separators", "_is_domain_match shape", "is_ip_address shape", "_RELATIVE_EXPIRY_ATTRS"]
 
 CJ = "aiohttp/cookiejar.py"
@@ -206,6 +207,33 @@ def _path_test():
         raise TranslatorError("filter_cookies: the cookie-path test must `continue`")
 
 
+def _cookie_pattern_dates():
+    """aiohttp/_cookie_helpers.py `_COOKIE_PATTERN` (a data-like regex literal): the alternatives for the value of
+    `Expires` must take a date in each of the three syntaxes of RFC 6265 / RFC 7231 (RFC 1123 `Sat, 09 Jan 2027 ...`,
+    RFC 850 `Saturday, 09-Jan-27 ...`, asctime `Sat Jan  9 ... 2027`), for every weekday name, as ONE value, so that
+    the attributes written after it are still seen.  Checked by running the regex read from the source."""
+    import re
+    pat, flags, _ = core.regex_source(core.find_assign("aiohttp/_cookie_helpers.py", "_COOKIE_PATTERN"))
+    rx = re.compile(pat, flags)
+    long_ = ["Monday", "Tuesday", "Wednesday", "Thursday", "Friday", "Saturday", "Sunday"]
+    n = 0
+    for i, day in enumerate(long_):
+        dd = "%02d" % (4 + i)          # 04 Jan 2027 is a Monday
+        for date in (f"{day[:3]}, {dd} Jan 2027 08:00:00 GMT", f"{day}, {dd}-Jan-27 08:00:00 GMT",
+                     f"{day[:3]} Jan {4 + i:2d} 08:00:00 2027", f"{day[:3]}, {dd} Jan 2027 08:00:00 +0000"):
+            hdr = f"n=v; Expires={date}; Secure"
+            m = rx.match(hdr, 0)
+            m = rx.match(hdr, m.end(0)) if m else None
+            if not m or m.group("key") != "Expires" or m.group("val") != date:
+                raise TranslatorError(f"_COOKIE_PATTERN does not take the Expires date {date!r} as one value "
+                                      f"(got {m.group('val')!r})" if m else f"_COOKIE_PATTERN does not match at Expires={date!r}")
+            m2 = rx.match(hdr, m.end(0))
+            if not m2 or m2.group("key") != "Secure":
+                raise TranslatorError(f"_COOKIE_PATTERN loses the attribute after Expires={date!r}")
+            n += 1
+    return n
+
+
 def _secure_schemes():
     fn = core.find_function(CJ, "filter_cookies", cls="CookieJar")
     found = []
@@ -262,6 +290,9 @@ def generate() -> str:
                f"Definition invalid_max_age_uses_expires : bool := {'true' if mam == 'falls_through' else 'false'}.\n")
     _path_test()
     out.append("(* shape checked: filter_cookies skips a cookie unless request_url.path.startswith(cookie['path']) *)\n")
+    nd = _cookie_pattern_dates()
+    out.append(f"(* checked: _cookie_helpers._COOKIE_PATTERN takes each of {nd} Expires dates (RFC 1123 / RFC 850 / asctime / numeric zone x "
+               "7 weekdays) as one value and still sees the next attribute *)\n")
     sch = _secure_schemes()
     out.append("(* filter_cookies: schemes over which Secure cookies may be sent *)\n"
                "Definition secure_schemes : list (list N) := [" + "; ".join(core.coq_bytes(s) for s in sch) + "].\n")
